@@ -43,8 +43,15 @@ ChildKw(n) ==
 NoKw == [idel |-> "N", ianew |-> "N", isafe |-> "N"]
 
 \* composed.py:380-405 _propagate_implicit_values
-RECURSIVE Propagate(_)
+\* (since the fix of composed.py: first of all, everything below an unsafe node is made unsafe, however the node became unsafe)
+RECURSIVE Propagate(_), PropagateOld(_)
 Propagate(n) ==
+    IF ~IsComposed(n) THEN n
+    ELSE IF NotNoneOr(n.safe, n.isafe) = "F" /\ ~Mut("MergeLaundersUnsafe")
+    THEN PropagateOld([n EXCEPT !.ch = [i \in 1..Len(n.ch) |->
+             <<n.ch[i][1], IF n.ch[i][2].isafe # "F" THEN Propagate([n.ch[i][2] EXCEPT !.isafe = "F"]) ELSE n.ch[i][2]>>]])
+    ELSE PropagateOld(n)
+PropagateOld(n) ==
     IF ~IsComposed(n) THEN n
     ELSE IF n.idel = "N" /\ n.ianew = "N" /\ n.isafe = "N" THEN n
     ELSE IF n.del # "N" /\ n.anew # "N" /\ n.safe # "N" THEN n
